@@ -92,9 +92,18 @@ def join(a: Optional[AV], b: Optional[AV]) -> AV:
 def join_env(a: Dict[str, AV], b: Dict[str, AV]) -> Dict[str, AV]:
     out = {}
     for k in set(a) | set(b):
+        if k.startswith("@lit:"):
+            out[k] = a.get(k) if a.get(k) == b.get(k) else "U"
+            continue
         if k.startswith("@ver:"):
             # binding stamps: equal on both sides -> kept; different -> the name was (re)bound on one path only: a fresh, unmatched stamp
-            out[k] = a.get(k) if a.get(k) == b.get(k) else ("join", a.get(k), b.get(k))
+            if a.get(k) == b.get(k):
+                out[k] = a.get(k)
+            else:
+                atoms = set()
+                for v in (a.get(k), b.get(k)):
+                    atoms |= set(v[1]) if isinstance(v, tuple) and v and v[0] == "join" else {v}
+                out[k] = ("join", frozenset(atoms))
             continue
         if k in a and k in b:
             out[k] = join(a[k], b[k])
@@ -302,6 +311,9 @@ class _State:
             env = dict(env)
             for t in st.targets:
                 self.assign(t, v, env, st)
+            if len(st.targets) == 1 and isinstance(st.targets[0], ast.Name):
+                # literal flags (`found = False`): lets `if found:` continue with the states in which the flag can be true
+                env["@lit:" + st.targets[0].id] = ("F" if not st.value.value else "T") if isinstance(st.value, ast.Constant) else "U"
             return env
         if isinstance(st, ast.AnnAssign):
             if st.value is None:
@@ -346,13 +358,54 @@ class _State:
             return None
         if isinstance(st, ast.If):
             self.ev(st.test, env)
-            e1 = self.block(st.body, self.refine(env, st.test, True))
-            e2 = self.block(st.orelse, self.refine(env, st.test, False)) if st.orelse else self.refine(env, st.test, False)
+            if not hasattr(self, "_truthy"):
+                self._truthy = {}
+            base_true, base_false = self.refine(env, st.test, True), self.refine(env, st.test, False)
+            # a flag computed by the preceding if/elif chain: continue each branch with the states under which the flag has that truth value
+            flag = st.test if isinstance(st.test, ast.Name) else (st.test.operand if isinstance(st.test, ast.UnaryOp) and isinstance(st.test.op, ast.Not)
+                                                                    and isinstance(st.test.operand, ast.Name) else None)
+            if flag is not None:
+                rec = self._truthy.get((flag.id, env.get("@ver:" + flag.id)))
+                if rec is not None and rec[0] is env:
+                    t_env, f_env = rec[1], rec[2]
+                    neg = not isinstance(st.test, ast.Name)
+                    if t_env is not None:
+                        if neg:
+                            base_false = dict(t_env)
+                        else:
+                            base_true = dict(t_env)
+                    if f_env is not None:
+                        if neg:
+                            base_true = dict(f_env)
+                        else:
+                            base_false = dict(f_env)
+            e1 = self.block(st.body, base_true)
+            e2 = self.block(st.orelse, base_false) if st.orelse else base_false
             if e1 is None:
                 return e2
             if e2 is None:
                 return e1
-            return join_env(e1, e2)
+            joined = join_env(e1, e2)
+            for k in list(joined):
+                if not k.startswith("@ver:"):
+                    continue
+                nm = k[5:]
+                if e1.get(k) == e2.get(k):
+                    continue
+
+                def side(sv):
+                    """(states of this side in which nm may be truthy, ... may be falsy)"""
+                    r = self._truthy.get((nm, sv.get(k)))
+                    if r is not None and r[0] is sv:
+                        return r[1], r[2]
+                    lit = sv.get("@lit:" + nm, "U")
+                    return (None if lit == "F" else sv), (None if lit == "T" else sv)
+                t1, f1 = side(e1)
+                t2, f2 = side(e2)
+                tj = t1 if t2 is None else (t2 if t1 is None else join_env(t1, t2))
+                fj = f1 if f2 is None else (f2 if f1 is None else join_env(f1, f2))
+                self._truthy[(nm, joined.get(k))] = (joined, tj, fj)
+            return joined
         if isinstance(st, (ast.For, ast.AsyncFor)):
             it = self.ev(st.iter, env)
             elem = self.element_of(it, st.iter, env)
